@@ -102,9 +102,33 @@ def svgattr : Handler := fun args => do
   let b ← argChars args 0
   .ok (charsToBytes (Model.C09SvgText.svgAttrWrite (Model.C09SvgText.svgAttrPre b)))
 
+/-- `model.c09.xml.svgstyletext n data m` → bytes written by the `TextToken` branch inside `style` when the sub-minifier
+returns `m` for the data it is given -/
+def svgstyletext : Handler := fun args => do
+  let n ← argNat args 0
+  let d ← argChars args 1
+  let m ← argChars args 2
+  .ok (charsToBytes (Model.C09SvgText.svgText true (fun _ => some m) n d))
+
+/-- `model.c09.xml.svgstylecdata n data text m` → bytes written by the `CDATAToken` branch inside `style` -/
+def svgstylecdata : Handler := fun args => do
+  let n ← argNat args 0
+  let d ← argChars args 1
+  let t ← argChars args 2
+  let m ← argChars args 3
+  .ok (charsToBytes (Model.C09SvgText.svgCData true (fun _ => some m) n d t))
+
+/-- `model.c09.xml.svgstyleattr body m` → bytes written for a quoted `style` attribute value -/
+def svgstyleattr : Handler := fun args => do
+  let b ← argChars args 0
+  let m ← argChars args 1
+  .ok (charsToBytes (Model.C09SvgText.svgStyleAttr (fun _ => some m) b))
+
 def handlers : List (String × Handler) :=
   [("spec.c09.xml.tokens", tokens), ("spec.c09.xml.cmp", cmp), ("spec.c09.xml.contract", contract),
    ("spec.c09.xml.agree", agree), ("model.c09.xml.svgtext", svgtext), ("model.c09.xml.svgcdata", svgcdata),
-   ("model.c09.xml.svgattr", svgattr), ("model.c09.xml.pass", pass)]
+   ("model.c09.xml.svgattr", svgattr), ("model.c09.xml.pass", pass),
+   ("model.c09.xml.svgstyletext", svgstyletext), ("model.c09.xml.svgstylecdata", svgstylecdata),
+   ("model.c09.xml.svgstyleattr", svgstyleattr)]
 
 end Verif.Driver.C09Xml
